@@ -2271,7 +2271,14 @@ DLLEXPORT int tj3DecompressToYUVPlanes8(tjhandle handle,
   }
 
   dinfo->do_fancy_upsampling = !this->fastUpsample;
-  dinfo->dct_method = this->fastDCT ? JDCT_FASTEST : JDCT_ISLOW;
+  /* The fast DCT is ignored when decompression scaling is enabled.  It must be
+     disabled explicitly here, because the 4:2:0 override below replaces the
+     IDCT function of the chroma components with a scaled IDCT function without
+     rebuilding their dequantization tables, and the scaled IDCT functions
+     expect tables built for the accurate DCT. */
+  dinfo->dct_method =
+    (this->fastDCT && this->scalingFactor.num == this->scalingFactor.denom) ?
+    JDCT_FASTEST : JDCT_ISLOW;
   dinfo->raw_data_out = TRUE;
 
   dinfo->mem->max_memory_to_use = (long)this->maxMemory * 1048576L;
